@@ -294,6 +294,85 @@ pub fn confirm_in_child(path: &Path, oracle: &str) -> Result<(), String> {
     }
 }
 
+/// Execute `case` in a fresh process; returns the failing oracle and detail, if any.
+pub fn exec_in_child<C: Check>(check: &C, case: &C::Case, tag: &str) -> Result<Option<Violation>, String> {
+    let path = replay_dir().join(format!(".tmp-{}-{}-{tag}.json", check.id(), std::process::id()));
+    let doc = json!({"property": check.id(), "case": case});
+    std::fs::write(&path, serde_json::to_string(&doc).unwrap()).map_err(|e| e.to_string())?;
+    let exe = std::env::current_exe().map_err(|e| e.to_string())?;
+    let out = std::process::Command::new(exe).arg("replay").arg(&path).output().map_err(|e| e.to_string());
+    let _ = std::fs::remove_file(&path);
+    let out = out?;
+    let so = String::from_utf8_lossy(&out.stdout);
+    match out.status.code() {
+        Some(0) => Ok(None),
+        Some(1) => {
+            let oracle = so
+                .lines()
+                .find_map(|l| l.strip_prefix("REPLAY-RESULT violation-reproduced oracle="))
+                .unwrap_or("?")
+                .to_string();
+            let detail = so.lines().find(|l| l.starts_with("REPLAY property=")).unwrap_or("").to_string();
+            Ok(Some(Violation { oracle, detail }))
+        }
+        c => Err(format!("child exit {c:?}")),
+    }
+}
+
+/// Delta debugging with every candidate executed in its own fresh process: used when the
+/// in-process minimisation is not trustworthy because the code under test keeps state in the
+/// process (statics, poisoned locks, thread-locals of the minimising thread).
+pub fn minimise_isolated<C: Check>(check: &C, case: &C::Case, oracle: &str, budget: u64) -> Option<(C::Case, Violation, u64)> {
+    let mut cur = case.clone();
+    let mut cur_v = match exec_in_child(check, &cur, "iso") {
+        Ok(Some(v)) if v.oracle == oracle => v,
+        _ => return None,
+    };
+    let mut execs = 1u64;
+    'outer: loop {
+        for cand in check.shrink(&cur) {
+            if execs >= budget {
+                break 'outer;
+            }
+            execs += 1;
+            if let Ok(Some(v)) = exec_in_child(check, &cand, "iso") {
+                if v.oracle == oracle {
+                    cur = cand;
+                    cur_v = v;
+                    continue 'outer;
+                }
+            }
+        }
+        break;
+    }
+    Some((cur, cur_v, execs))
+}
+
+/// Minimise, write the replay file and confirm it in a fresh process. Falls back to
+/// process-isolated minimisation when the in-process result does not reproduce.
+pub fn minimise_and_confirm<C: Check>(
+    check: &C,
+    seed: u64,
+    index: u64,
+    case: &C::Case,
+    v0: &Violation,
+) -> Result<(PathBuf, C::Case, Violation), String> {
+    let (min_case, v, execs) = minimise(check, case, &v0.oracle);
+    let note = format!("minimised with {execs} in-process re-executions from run {index}");
+    let path = write_replay(check, seed, index, &min_case, &v, &note);
+    match confirm_in_child(&path, &v.oracle) {
+        Ok(()) => Ok((path, min_case, v)),
+        Err(e1) => match minimise_isolated(check, case, &v0.oracle, 400) {
+            Some((c2, v2, n2)) => {
+                let note = format!("minimised with {n2} process-isolated re-executions from run {index} (the in-process minimum did not reproduce in a fresh process: the code under test keeps state in the process)");
+                let path = write_replay(check, seed, index, &c2, &v2, &note);
+                confirm_in_child(&path, &v2.oracle).map(|()| (path, c2, v2))
+            }
+            None => Err(e1),
+        },
+    }
+}
+
 pub fn run_batch<C: Check>(check: &C, cfg: &BatchCfg) -> BatchOutcome {
     let start = Instant::now();
     let chunk: u64 = 256;
@@ -434,20 +513,21 @@ pub fn run_batch<C: Check>(check: &C, cfg: &BatchCfg) -> BatchOutcome {
             known_runs += 1;
             continue;
         }
-        let (min_case, v, execs) = minimise(check, &case, &v0.oracle);
+        let (path, min_case, v) = match minimise_and_confirm(check, cfg.seed, i, &case, &v0) {
+            Ok(x) => x,
+            Err(e) => {
+                unrepro_child.push(format!("run {i} ({e})"));
+                continue;
+            }
+        };
         let key = check.finding_key(&min_case, &v);
         if known.matches(check.id(), &key) {
+            let _ = std::fs::remove_file(&path);
             let line = format!("KNOWN-FINDING: property={} {}", check.id(), key);
             if !known_lines.contains(&line) {
                 known_lines.push(line);
             }
             known_runs += 1;
-            continue;
-        }
-        let note = format!("minimised with {execs} re-executions from run {i}");
-        let path = write_replay(check, cfg.seed, i, &min_case, &v, &note);
-        if let Err(e) = confirm_in_child(&path, &v.oracle) {
-            unrepro_child.push(format!("{} ({e})", path.display()));
             continue;
         }
         out_lines.push(format!(
